@@ -188,10 +188,26 @@ func simplify(t *Term) *Term {
 				base = base.A[0]
 				continue
 			}
+			if base.Op == "" && base.At == "zero" {
+				// a field of the zero value of a struct is the zero value of the field
+				if b, ok := typeUnderlyingBasic(t.Typ); ok && b.Kind() == types.Bool {
+					return &Term{At: "#false", Typ: t.Typ}
+				}
+				if t.Typ != nil {
+					return &Term{At: "zero", Typ: t.Typ}
+				}
+			}
 			break
 		}
 		if base != t.A[0] {
 			return &Term{Op: t.Op, A: []*Term{base}, Typ: t.Typ, Obj: t.Obj, Pos: t.Pos}
+		}
+	}
+	// x[i] with i the index under which x is being ranged (known after a helper's result was substituted)
+	if t.Op == "idx" && len(t.A) == 2 {
+		it := t.A[1]
+		if (it.Op == "key" && len(it.A) == 1 && it.A[0].Eq(t.A[0])) || (it.Op == "keyfrom" && len(it.A) == 2 && it.A[1].Eq(t.A[0])) {
+			return &Term{Op: "elem", A: []*Term{t.A[0]}, Typ: t.Typ, Pos: t.Pos}
 		}
 	}
 	if t.Op == "res" && len(t.A) == 2 && t.A[1].Op == "tuple" {
@@ -998,4 +1014,12 @@ func isUnsigned(T types.Type) bool {
 	}
 	b, ok := T.Underlying().(*types.Basic)
 	return ok && b.Info()&types.IsUnsigned != 0
+}
+
+func typeUnderlyingBasic(T types.Type) (*types.Basic, bool) {
+	if T == nil {
+		return nil, false
+	}
+	b, ok := T.Underlying().(*types.Basic)
+	return b, ok
 }
